@@ -79,6 +79,10 @@ type pipeline struct {
 	// gate, if set, is called inside the handler (pipeline limiting).
 	gate func(remote net.Addr, req *dns.Msg)
 
+	// slow makes the handler take simulated time that depends on the
+	// question.
+	slow bool
+
 	// observe, if set, is called inside the handler with the request's
 	// context (what the transport tells the handler about the request).
 	observe func(ctx context.Context, rw dnsserver.ResponseWriter, req *dns.Msg)
@@ -220,6 +224,13 @@ func (p *pipeline) ServeDNS(ctx context.Context, rw dnsserver.ResponseWriter, re
 
 	q := req.Question[0]
 	rcode, an, ns, ex, ownOPT, mode := answerFor(q)
+	if p.slow {
+		// Resolution takes time, differently per name: answers complete out
+		// of order, and connections end while queries are in flight.
+		if d := []time.Duration{0, 0, time.Millisecond, 40 * time.Millisecond, 900 * time.Millisecond}[hashQ(q)/7%5]; d > 0 {
+			time.Sleep(d)
+		}
+	}
 	switch mode {
 	case "nowrite":
 		return nil
